@@ -47,6 +47,31 @@ def _run_batch(args):
     return out
 
 
+def _run_mixed(args):
+    """several conformant documents of different maps in one file (successive interchanges)"""
+    tid, parts = args
+    triple = wc.TRIPLES[tid % 3]
+    eol = wc.EOLS[tid % 4]
+    text = ''
+    nsets = ngroups = 0
+    start = 0
+    for fn, full, doc, mode in parts:
+        c = wc.Concretiser(full, triple, eol, fill_optional=mode)
+        c.isa_start = start
+        t, info = c.build(doc)
+        start = c.isa_n
+        text += t
+        if not (c.entry and c.entry['fic'] == 'FA'):
+            nsets += sum(1 for x in info if x[1] == 'ST')
+            ngroups += sum(1 for x in info if x[1] == 'GS')
+    r = wc.run_validator(text, want_ack=True)
+    sets, groups = wc.ack_codes(r['ack'])
+    rec = {'id': tid, 'map': '+'.join(p[0] for p in parts), 'nodes': [], 'matched': [x['path'] for x in r['nodes']], 'verdict': r['verdict'] if r['verdict'] is not None else False,
+           'nerr': len(r['errors']), 'sets': sets, 'groups': groups, 'nsets': nsets, 'ngroups': ngroups, 'exc': r['exc'], 'mode': 'mixed', 'triple': ''.join(triple), 'eol': eol,
+           'errors': r['errors'][:6], 'site': r.get('site', '')}
+    return rec, text
+
+
 def _validate_batch(args):
     skel, recs = args
     d = vlib.scratch('c02tv')
@@ -117,6 +142,35 @@ def run(tier, replay=None):
                 walks_by_map.setdefault(e['map'] or fn, []).append({k: v for k, v in e.items() if k != 'map'})
             if text is not None:
                 texts[rec['id']] = text
+    # several maps in one file: every ordered pair of the chosen maps that share an interchange version
+    mjobs = []
+    mt = 10000000
+    ver = {}
+    for fn in files:
+        ent = [e for e in wc.mapexport.index_entries() if e['file'] == fn and e['icvn'] in ('00401', '00501')]
+        ver[fn] = ent[0]['icvn'] if ent else ''
+    fa_maps = set(e['file'] for e in wc.mapexport.index_entries() if e['fic'] == 'FA')     # whether a file holding a 997/999 group is acknowledged is not claimed
+    pairs = [(a, b) for a in files for b in files if a != b and ver[a] == ver[b] and ver[a] and a not in fa_maps and b not in fa_maps]
+    if q and len(pairs) > 10:
+        must = [p for p in pairs if p[0].startswith('837') and not p[1].startswith('837')][:3]
+        pairs = must + rnd.sample([p for p in pairs if p not in must], 10 - len(must))
+    for a, b in pairs:
+        _, fa_ = wc.export_map(a)
+        _, fb_ = wc.export_map(b)
+        cands = [(docs_of[a][(i * 7) % len(docs_of[a])], docs_of[b][(i * 11 + 3) % len(docs_of[b])]) for i in range(2 if q else 4)]
+        def rich(fn, full):          # the document with the most service lines / hierarchical levels, then the longest
+            ids = {n['n']: n['id'] for n in full['nodes']}
+            return max(docs_of[fn], key=lambda d: (sum(1 for x in d if ids[x] == 'LX'), sum(1 for x in d if ids[x] == 'HL'), len(d)))
+        cands.append((rich(a, fa_), rich(b, fb_)))
+        for da, db in cands:
+            mt += 1
+            mjobs.append((mt, [(a, fa_, da, True), (b, fb_, db, True)]))
+    mixed = vlib.parallel_map(_run_mixed, mjobs)
+    if mixed:
+        first_map = files[0]
+        for rec, text in mixed:
+            recs_by_map.setdefault(first_map, []).append(rec)
+            texts[rec['id']] = text
     # outcome validation by TLC
     vjobs = []
     for fn, recs in recs_by_map.items():
